@@ -245,6 +245,7 @@ func runRetry(args []string) error {
 	out := fs.String("out", "retry", "output prefix")
 	seed := fs.Int64("seed", 1, "PRNG seed")
 	tier := fs.String("tier", "quick", "quick|thorough")
+	ckModelFlags(fs)
 	fs.Parse(args)
 	rng := rand.New(rand.NewSource(*seed))
 	thorough := *tier == "thorough"
